@@ -286,3 +286,59 @@ def run_alias(prog, rep):
             ok = ok and out == ('ret', ('GROUP',))
     rule.check(ok, '%s|table' % rg.q, rep.where(rg), rg.q, 'alias() ? linked array group : own group', 'redirectGroup does not select the linked group exactly when alias(): %r' % [(r[0], r[1]) for r in res])
     return rule
+
+
+def run_ticks_write(prog, rep):
+    """setting ticks replaces the stored sequence: the stored length becomes ticks.size() on every path that writes"""
+    from ..absint import GenericInterp
+    rule = rep.rule('R-TICKS', 'RangeDimensionHDF5::ticks(vector) makes the stored sequence exactly the given one: extent = ticks.size() before the write on every writing path', floor=1)
+    fs = [f for f in prog.fns('nix::hdf5::RangeDimensionHDF5::ticks') if len(f.params) == 1 and 'vector' in f.params[0]['type'] and f.body is not None]
+    if len(fs) != 1:
+        raise AnalysisBroken('anchor vanished: RangeDimensionHDF5::ticks(vector)')
+    f = fs[0]
+    pn = f.params[0]['name']
+    it = GenericInterp(prog, watch=lambda n: (n.callee or {}).get('name') in ('setExtent', 'write', 'setData', 'openData'))
+    res = it.enumerate(f, this='THIS', args=[(pn,)])
+    probs = []
+    nw = 0
+    for assign, out, log, fields in res:
+        if out[0] != 'ret':
+            continue
+        names = [l[0] for l in log]
+        if 'setData' in names:
+            nw += 1
+            sd = [l for l in log if l[0] == 'setData'][0]
+            if len(sd) < 4 or sd[3] != (pn,) or sd[2] != 'ticks':
+                probs.append('own ticks are not stored as setData("ticks", ticks)')
+            continue
+        if 'write' in names:
+            nw += 1
+            se = [l for l in log if l[0] == 'setExtent']
+            if not se or names.index('setExtent') > names.index('write'):
+                probs.append('a path writes the ticks into the array without setting its extent to ticks.size() first: a shorter tick vector leaves the old tail in place (read-back = new ticks + old tail, no longer ascending)')
+            elif ('call', 'size', (pn,)) not in _flatten(se[0][2:]):
+                probs.append('the array extent is set to %r, not to ticks.size()' % (se[0][2:],))
+            w = [l for l in log if l[0] == 'write'][0]
+            if pn not in repr(w[2:]):
+                probs.append('the data written are not the given ticks')
+            od = [l for l in log if l[0] == 'openData']
+            if not od or od[0][-1] != 'data':
+                probs.append('alias ticks are not written to the array\'s "data" data set')
+            continue
+        probs.append('a returning path stores nothing')
+    if nw < 2:
+        probs.append('paths do not cover own and alias ticks (%d)' % nw)
+    rule.check(not probs, 'RangeDimensionHDF5::ticks(vector)|replace', rep.where(f), f.label(), 'own: setData("ticks", ticks); alias: setExtent(ticks.size()) then write(ticks)', '; '.join(sorted(set(probs))[:2]))
+    return rule
+
+
+def _flatten(t):
+    out = []
+
+    def w(x):
+        if isinstance(x, tuple):
+            out.append(x)
+            for y in x:
+                w(y)
+    w(t)
+    return out
